@@ -337,6 +337,10 @@ pub fn base_model(variant: usize) -> Model {
     let k = Ex::Lit(vec![("2001:db8:f00::/48".into(), Op::Range(49, 50)), ("192.0.2.0/25".into(), Op::None)]);
     _ = m.db.filter_sets.insert("FLTR-H".into(), vec![format!("@nochanged {}", k.render())]);
     _ = m.filter_exprs.insert("FLTR-H".into(), k);
+    // a filter attribute folded over several lines, with end-of-line comments (RFC 2622 section 2)
+    let c = Ex::Or(Box::new(Ex::AutNum("AS65001".into())), Box::new(Ex::AutNum("AS65002".into())));
+    _ = m.db.filter_sets.insert("FLTR-C".into(), vec!["AS65001 # ours\n                OR AS65002 # a customer\n+               # nothing else".into()]);
+    _ = m.filter_exprs.insert("FLTR-C".into(), c);
     // registry data that can never be evaluated (never used as an atom: there is nothing to compare with)
     _ = m.db.filter_sets.insert("FLTR-LOOP".into(), vec!["FLTR-LOOP".into()]);
     m
@@ -357,6 +361,7 @@ pub fn atoms() -> Vec<Ex> {
         Ex::FilterSet("FLTR-F".into()),
         Ex::FilterSet("FLTR-G".into()),
         Ex::FilterSet("FLTR-H".into()),
+        Ex::FilterSet("FLTR-C".into()),
         lit4.clone(),
         lit6,
         lit_mixed,
